@@ -5,6 +5,9 @@ cd "$(dirname "$0")"
 export GOFLAGS=-mod=mod GOPROXY=off GOSUMDB=off GOTOOLCHAIN=local
 export GOCACHE=/verif/.gocache
 export CGO_ENABLED=0
+# the checks allocate fast on 16 threads (every explored transaction builds fresh caches): without a soft limit the collector
+# lets the heap run far ahead of the live data (an out-of-memory kill would take the evidence with it)
+export GOMEMLIMIT=${GOMEMLIMIT:-12GiB}
 BIN=/verif/.bin
 mkdir -p "$BIN" /verif/evidence /verif/replays
 
